@@ -11,8 +11,8 @@ def short(v):
     if isinstance(v, str) and "(" in v: return v.split("(")[-1][:-1]
     return v
 for s in ev["coverage"]["subchecks"]:
-    print(s["sub"], "evals", s["evaluations"], "skipped", s["skipped"], s.get("skip_reasons"))
-    print("  classes", s["classes"])
-    for t in s.get("top", [])[:10] + s.get("skipsamples", [])[:12]:
+    print(s["sub"], "evals", s.get("evaluations"), "passed", s.get("passed"), "skipped", s.get("skipped"), s.get("skip_reasons"))
+    print("  classes", s.get("classes"))
+    for t in s.get("top", [])[:int(os.environ.get("VF_TOP", "10"))] + s.get("skipsamples", [])[:12]:
         r = t["rec"]
         print("  %.3g %s | %s" % (t["ratio"], t["rel"][:48], " ".join("%s=%s" % (k, short(v)) for k, v in r.items()) if isinstance(r, dict) else r))
